@@ -149,9 +149,20 @@ def ColSpec.of (name : String) (srcs : List (String × Option String)) (fromAlia
 def pushCol (acc : List Column) (c : Column) : List Column :=
   if acc.any (fun x => x.key == c.key) then acc else acc ++ [c]
 
+/-- the `k`‑th permutation of a list (factorial number system); `k = 0` is the identity -/
+def permK {α : Type} : Nat → List α → List α
+  | _, [] => []
+  | k, x :: r =>
+    let n := r.length + 1
+    let rest := permK (k / n) r
+    let i := k % n
+    rest.take i ++ [x] ++ rest.drop i
+
 /-- `Column.to_source_columns(alias_mapping)` (models.py:208‑243).  `importDefault` is the schema of the `Table(qualifier)`
     fallback: the default argument `Schema()` evaluated when `core/models.py` was imported. -/
-def toSourceColumns (importDefault : String) (m : AliasMap) (c : ColSpec) : List Column :=
+def toSourceColumns (importDefault : String) (m : AliasMap) (c : ColSpec) (revStar : Nat := 0) : List Column :=
+  -- `set(alias_mapping.values())` is iterated in hash order; `revStar` selects which order (C11 / D16); 0 = model order
+  let amValues := fun (m : AliasMap) => permK revStar (amValues m)
   c.srcs.foldl (fun acc sq =>
     let name := Ident.escapeS sq.1       -- `Column(name)` normalises again
     match sq.2 with
@@ -177,9 +188,9 @@ def slice {α : Type} (l : List α) (a b : Nat) : List α := (l.drop a).take (b 
     wired to `write_columns[idx]` when their number equals the group's size (and the item has at least one source),
     else to its own name. -/
 def cleanupItem (importDefault : String) (tp : DS × String) (grpLen : Nat) (tblGrp : List DObj)
-    (g : LGraph) (ci : ColSpec × Nat) : Except Err LGraph :=
+    (g : LGraph) (ci : ColSpec × Nat) (revStar : Nat := 0) : Except Err LGraph :=
   let own : Column := Column.mk1 ci.1.raw (some tp)
-  let srcs := toSourceColumns importDefault (aliasMapping g tblGrp) ci.1
+  let srcs := toSourceColumns importDefault (aliasMapping g tblGrp) ci.1 revStar
   if srcs.isEmpty then .ok g
   else
     let wc := writeColumns g
@@ -188,21 +199,22 @@ def cleanupItem (importDefault : String) (tp : DS × String) (grpLen : Nat) (tbl
     srcs.foldlM (fun g s => addColumnLineage g s tgt) g
 
 /-- the body of the loop over one union group (parser/__init__.py:24‑81) -/
-def cleanupGroup (importDefault : String) (g : LGraph) (colGrp : List ColSpec) (tblGrp : List DObj) : Except Err LGraph :=
+def cleanupGroup (importDefault : String) (g : LGraph) (colGrp : List ColSpec) (tblGrp : List DObj)
+    (revStar : Nat := 0) : Except Err LGraph :=
   match writeSet g with
   | [] => .ok g
-  | [t] => (colGrp.zipIdx).foldlM (cleanupItem importDefault (t, printedDS g t) colGrp.length tblGrp) g
+  | [t] => (colGrp.zipIdx).foldlM (fun g ci => cleanupItem importDefault (t, printedDS g t) colGrp.length tblGrp g ci revStar) g
   | _ => .error .lineage
 
 /-- `end_of_query_cleanup` (parser/__init__.py:14‑23): reads, then one group per union barrier -/
 def endOfQueryCleanup (importDefault : String) (g : LGraph) (tables : List DObj) (columns : List ColSpec)
-    (barriers : List (Nat × Nat)) : Except Err LGraph :=
+    (barriers : List (Nat × Nat)) (revStar : Nat := 0) : Except Err LGraph :=
   let g := tables.foldl addReadO g
   let bs := barriers ++ [(columns.length, tables.length)]
   let rec go (g : LGraph) (prev : Nat × Nat) : List (Nat × Nat) → Except Err LGraph
     | [] => .ok g
     | b :: r =>
-      match cleanupGroup importDefault g (slice columns prev.1 b.1) (slice tables prev.2 b.2) with
+      match cleanupGroup importDefault g (slice columns prev.1 b.1) (slice tables prev.2 b.2) revStar with
       | .ok g' => go g' b r
       | .error e => .error e
   go g (0, 0) bs
